@@ -4,15 +4,18 @@
 (*                transition of the model's state graph - every (program, reachable tree state, call)   *)
 (*                is the last step of one emitted sequence;                                             *)
 (*  Cover = FALSE (no VIEW): every call sequence of length Depth for every program.                     *)
-(* The check appends cleanup + destroy and adds the Main() sequence per program.  Hook sequences        *)
+(* In Cover mode "destroy" is a transition from every state (the check runs those sequences on a tree  *)
+(* owned by a plain Module root); the check closes all other sequences with cleanup + destroy (or just  *)
+(* destroy on a wrapped tree) and adds the Main() sequence per program.  Hook sequences        *)
 (* predicted by the model are NOT emitted and not compared: the trace spec judges the real ones.         *)
 EXTENDS ModuleTree, Json, TLC
 CONSTANTS Depth, Cover
 VARIABLE hist
 gvars == <<vars, hist>>
 GInit == Init /\ hist = <<>>
-GCall == \E op \in Ops : alive /\ Do(op) /\ hist' = Append(hist, op)
-GNext == GCall
+GCall == \E op \in Ops : alive /\ Do(op) /\ UNCHANGED alive /\ hist' = Append(hist, op)
+GDestroy == Destroy /\ hist' = Append(hist, "destroy")          \* only in Cover mode
+GNext == GCall \/ (Cover /\ GDestroy)
 GSpec == GInit /\ [][GNext]_gvars
 View == vars
 Beh == PrintT("BEH " \o ToJson([p |-> [n |-> prog.n, parent |-> prog.parent, req |-> prog.req, iok |-> prog.iok, sok |-> prog.sok], c |-> hist]))
